@@ -111,6 +111,7 @@ def run_task(t):
         if kind == 'h':
             exp = E.add(exp, E.node(dag.varid[gt[key[1]]]))
         sc.real_eq('propagateGrad[%s] == sum_r gdC_r * dC_r/d(%s) (+ gdT)' % (G.key_str(key), G.key_str(key)), G.grad_out('G', key, N), exp)
+    sc.path_forced()
     sc.side_conditions()
     return [sc]
 
